@@ -49,7 +49,7 @@ class Schedules(Part):
         # free-running stress: random objective durations, 2-8 workers, SQLite attached, batches up to 40
         for _ in range(20 if ctx.quick else 400):
             cases.append({"kind": "stress", "n": rng.randint(2, 40), "workers": rng.randint(2, 8), "db": True,
-                          "faulty": rng.random() < 0.3, "cseed": rng.randrange(1 << 30)})
+                          "faulty": rng.random() < 0.3, "contention": rng.random() < 0.4, "cseed": rng.randrange(1 << 30)})
         return cases
 
     def run_case(self, ctx, case):
@@ -114,7 +114,47 @@ class Schedules(Part):
         rec = jobrec.Rec(dim=2, m=1, mode="parallel", workers=workers, gate=gate, script=script, db=db)
         vectors = [[round(rng.uniform(-5, 5), 6) for _ in range(2)] for _ in range(n)]
         rec.new_batch(vectors, pre=[rng.random() < 0.15 for _ in range(n)])
-        exc = jobrec.evaluate_batch(rec, workers=workers)
+        restore = None
+        if case.get("contention"):
+            # lock contention injected at the sqlite3 boundary: the upsert of a design fails 1..3 times with "database is locked"
+            # (what another writer holding the exclusive lock causes); every evaluated design must be persisted all the same
+            import sqlite3
+            real_connect = sqlite3.connect
+            budget = {}
+
+            class Cur:
+                def __init__(self, c):
+                    self._c = c
+
+                def execute(self, sql, *a):
+                    if sql.lstrip().upper().startswith("INSERT INTO INDIVIDUALS") and a:
+                        with lock:
+                            key = a[0][0]
+                            left = budget.setdefault(key, srng.choice([0, 1, 2, 3]))
+                            if left > 0:
+                                budget[key] = left - 1
+                                raise sqlite3.OperationalError("database is locked")
+                    return self._c.execute(sql, *a)
+
+                def __getattr__(self, name):
+                    return getattr(self._c, name)
+
+            class Conn:
+                def __init__(self, c):
+                    self._c = c
+
+                def cursor(self):
+                    return Cur(self._c.cursor())
+
+                def __getattr__(self, name):
+                    return getattr(self._c, name)
+            sqlite3.connect = lambda *a, **k: Conn(real_connect(*a, **k))
+            restore = (sqlite3, real_connect)
+        try:
+            exc = jobrec.evaluate_batch(rec, workers=workers)
+        finally:
+            if restore:
+                restore[0].connect = restore[1]
         rec.end_event(exc)
         return rec.events
 
